@@ -22,6 +22,7 @@ KF_KINDS = {
     "union-pack": "union-speculative-packer",
     "nt-ovc": "schema-nt-override-in-containers",
     "ovr-nullable": "schema-overridden-nullable",
+    "nested-generic": "schema-nested-generic-same-typevar",
 }
 
 _modn = [0]
@@ -54,6 +55,16 @@ class _Alarm(BaseException):      # not an Exception: the library's `except Exce
 
 BUILD_LIMIT_S = 60      # a schema is built in milliseconds; the limit only turns a hang into a finding (generous: loaded machines)
 _crashes = [0]          # after three crashes / hangs in a run the limit drops (the run is a VIOLATION already; keep it short)
+
+
+def build_error_signature(e: BaseException, tbl) -> dict:
+    """signature of an exception of build_json_schema that is not the library's unsupported-type signal"""
+    site = "other"
+    if isinstance(e, AssertionError) and tbl is not None and any(
+            d["kind"] == "data" and any(f["type"][0] == "gdata" and (f.get("alias_ann") is not None or f.get("ann_tag") is not None)
+                                        for f in d["fields"]) for d in tbl.decls):
+        site = "annotated-generic-field"        # x: Annotated[G[int], ...]
+    return {"kind": "schema-build-error", "exception": type(e).__name__, "site": site}
 
 
 def unsupported_exc(e: BaseException) -> bool:
@@ -138,6 +149,7 @@ class Sites:
         self.ntd = False        # the serializer writes named tuples as dicts at the current position
         self.nts = False        # ... the schema describes them as objects at the current position
         self.base = False       # class-wide option of the owning dataclass
+        self.genv: dict = {}    # type-variable binding of the innermost enclosing dataclass (empty: not a specialisation)
         self.out: list[tuple[tuple, str]] = []
         self._enc = {}
         clash = {}
@@ -312,28 +324,18 @@ class Sites:
             e2 = {"T": t[2][0]} if k == "gdata" else {}
             if self.all_refs and d["clsname"] in self.clash_names:
                 self.out.append((path, "bare-name"))
+            if k == "gdata" and self.genv and self.genv.get("T") != t[2][0] and any(G.contains_tvar(f["type"]) for f in d["fields"]):
+                # G2[date] met inside the specialisation G1[int] (same type variable): the schema builder resolves G2's variable
+                # with G1's binding (known finding schema-nested-generic-same-typevar)
+                self.out.append((path, "nested-generic"))
             cfg = d.get("cfg") or {}
             saved = (self.ntd, self.nts, self.base)
-            for f in d["fields"]:
-                key = f["alias"] if f["alias"] is not None else f["name"]
-                if not f["init"]:
-                    self.out.append((path, "init-false"))
-                if (f.get("ser") or ("",))[0] == "fn":
-                    # the member is the (constant, finding-free) output of the user's function -- except that None of a
-                    # nullable field is not passed to the function while the schema has no null alternative (known finding)
-                    if getattr(v, f["name"]) is None and field_nullable(f, e2):
-                        self.out.append((path + (key,), "ovr-nullable"))
-                    continue
-                fv = getattr(v, f["name"])
-                if cfg.get("omit_none") and fv is None and field_nullable(f, e2):
-                    continue        # the key is dropped (and, since /repo a5aab21, not required)
-                # class-wide option of this owner, overridden per field; nested dataclasses use their own
-                self.base = bool(cfg.get("nt_as_dict"))
-                self.ntd = self.nts = {"as_dict": True, "as_list": False}.get(f.get("nt_override"), self.base)
-                try:
-                    self.walk(f["type"], fv, path + (key,), e2)
-                finally:
-                    self.ntd, self.nts, self.base = saved
+            saved_genv = self.genv
+            self.genv = e2
+            try:
+                self._walk_fields(d, cfg, e2, v, path, saved)
+            finally:
+                self.genv = saved_genv
             return
         if k == "nt":
             d = tbl.by_name[t[1]]
@@ -349,6 +351,29 @@ class Sites:
                     self.walk(f["type"], v[f["name"]], path + (f["name"],))
             return
         raise KeyError(k)
+
+    def _walk_fields(self, d, cfg, e2, v, path, saved):
+
+        for f in d["fields"]:
+            key = f["alias"] if f["alias"] is not None else f["name"]
+            if not f["init"]:
+                self.out.append((path, "init-false"))
+            if (f.get("ser") or ("",))[0] == "fn":
+                # the member is the (constant, finding-free) output of the user's function -- except that None of a
+                # nullable field is not passed to the function while the schema has no null alternative (known finding)
+                if getattr(v, f["name"]) is None and field_nullable(f, e2):
+                    self.out.append((path + (key,), "ovr-nullable"))
+                continue
+            fv = getattr(v, f["name"])
+            if cfg.get("omit_none") and fv is None and field_nullable(f, e2):
+                continue        # the key is dropped (and, since /repo a5aab21, not required)
+            # class-wide option of this owner, overridden per field; nested dataclasses use their own
+            self.base = bool(cfg.get("nt_as_dict"))
+            self.ntd = self.nts = {"as_dict": True, "as_list": False}.get(f.get("nt_override"), self.base)
+            try:
+                self.walk(f["type"], fv, path + (key,), e2)
+            finally:
+                self.ntd, self.nts, self.base = saved
 
     def walk_offset(self, t, v, path, off):
         """elements of an unpacked inner tuple type t sit at positions off.. of the outer array"""
@@ -390,7 +415,7 @@ def explain(err, sites) -> set:
     sp = list(err.absolute_schema_path)
     kinds = set()
     for path, kind in sites:
-        if kind in ("bare-name", "union-pack"):
+        if kind in ("bare-name", "union-pack", "nested-generic"):
             if ep[:len(path)] == path or path[:len(ep)] == ep and err.validator == "anyOf":
                 kinds.add(kind)
             continue
@@ -467,8 +492,17 @@ def run_case(ctx, tbl, root, vspecs, src, probe):
             return 0
         except Exception as e:
             if not unsupported_exc(e):
+                # neither a schema nor the library's "unsupported" signal: build_json_schema failed on a type the serializer handles
                 ctx.hist("skipped", "schema-build-error:" + type(e).__name__)
                 ctx.notes.append(f"schema build error {type(e).__name__}: {str(e)[:120]} for {G.ty_src(root, tbl, [])[:100]}")
+                ctx.fail(f"build_json_schema raised {type(e).__name__} on a type the serializer supports (type {G.ty_src(root, tbl, [])[:80]})",
+                         {"entry": "build_json_schema(ROOT)", "source": src, "type": G.ty_src(root, tbl, []), "dialect": dl, "all_refs": ar,
+                          "check": "build-error", "observed": f"{type(e).__name__}: {str(e)[:200]}",
+                          "expected": "a schema, or the library's unsupported-type error"}, build_error_signature(e, tbl))
+                import os, traceback
+                os.makedirs(vlib.REPLAYS, exist_ok=True)
+                with open(os.path.join(vlib.REPLAYS, f"C06-{ctx.seed}-builderror.json"), "w") as fh:
+                    json.dump({"source": src, "type": G.ty_src(root, tbl, []), "error": traceback.format_exc()[-3000:]}, fh, indent=1)
             else:
                 ctx.hist("skipped", "schema-unsupported:" + type(e).__name__)
             return 0
@@ -517,14 +551,15 @@ def run_case(ctx, tbl, root, vspecs, src, probe):
                          {"kind": KF_KINDS["bare-name"] if shared and not stray else "definitions-stray"})
         for (pn, args) in reach:
             d = tbl.by_name[pn]
-            if args:
-                continue
+            # a specialisation G[arg]: the nullability of a field is that of its type with the argument substituted
+            e2 = {"T": args[0]} if args else {}
             omit = bool((d.get("cfg") or {}).get("omit_none"))
             exp_req = [(f["alias"] if f["alias"] is not None else f["name"]) for f in d["fields"]
-                       if f["init"] and f["default"] is None and not (omit and field_nullable(f))]
+                       if f["init"] and f["default"] is None and not (omit and field_nullable(f, e2))]
             exp_props = [(f["alias"] if f["alias"] is not None else f["name"]) for f in d["fields"] if f["init"]]
             try:
-                ds = build_schema(m.__dict__[pn], "DRAFT_2020_12", False)
+                cls_obj = eval(G.ty_src(("gdata", pn, list(args)), tbl, []), m.__dict__) if args else m.__dict__[pn]
+                ds = build_schema(cls_obj, "DRAFT_2020_12", False)
             except Exception as e:
                 ctx.hist("skipped", "class-schema:" + type(e).__name__)
                 continue
@@ -532,7 +567,7 @@ def run_case(ctx, tbl, root, vspecs, src, probe):
             if got != exp_req or list(ds.get("properties", {})) != exp_props:
                 ctx.fail(f"'required'/'properties' of {d['clsname']} are {got}/{list(ds.get('properties', {}))}, serialized keys of the fields "
                          f"without default are {exp_req} (all: {exp_props})",
-                         {**base, "check": "required", "class": pn, "observed": {"required": got, "properties": list(ds.get('properties', {}))},
+                         {**base, "check": "required", "class": G.ty_src(("gdata", pn, list(args)), tbl, []) if args else pn, "observed": {"required": got, "properties": list(ds.get('properties', {}))},
                           "expected": {"required": exp_req, "properties": exp_props}},
                          {"kind": "required-mismatch"})
             n += 1
@@ -625,6 +660,12 @@ FIXED_CASES = [
      "@dataclass\nclass Ou(DataClassDictMixin):\n    u: Union[int, None, str]\n    v: Annotated[Union[bytes, None, List[int], bool], 'n']\n    k: Union[int, str]\n"
      "    class Config(BaseConfig):\n        omit_none = True\n", "Ou",
      ["Ou(None, None, 1)", "Ou('s', [1], 'k')", "Ou(2, None, 3)"]),
+    ("omit_none generic owner, type variable bound to a nullable type (4da7e9e)",
+     "T = TypeVar('T')\n@dataclass\nclass Gn(DataClassDictMixin, Generic[T]):\n    gv: T\n    o: Optional[T]\n    l: List[T]\n"
+     "    class Config(BaseConfig):\n        omit_none = True\n"
+     "@dataclass\nclass Hg(DataClassDictMixin):\n    a: Gn[int]\n    b: Gn[Optional[int]]\n    c: Gn[None]\n    d: Gn[Union[str, None, int]]\n",
+     "Hg", ["Hg(Gn(1, None, [1]), Gn(None, None, [None]), Gn(None, None, []), Gn(None, 's', [2, None]))",
+            "Hg(Gn(1, 2, []), Gn(3, 4, [5]), Gn(None, None, [None]), Gn('s', None, ['t']))"]),
     ("strategy by origin key",
      "def _ser(v) -> str:\n    return ','.join(map(str, v))\n@dataclass\nclass St(DataClassDictMixin):\n    x: List[int]\n"
      "    y: List[int] = field(default_factory=list, metadata={'serialize': _ser})\n"
@@ -645,6 +686,15 @@ FIXED_CASES = [
      "    t: List[int] = field(metadata=field_options(serialization_strategy={'serialize': _fl}))\n"
      "    l: List[List[int]] = field(default_factory=list, metadata=field_options(serialize=_fl))\n",
      "Fo", ["Fo(1, 2, 3, 4, 5, [6])", "Fo(1, 2, 3, 4, 5, [], [[7]])"]),
+    ("nested generic, same type variable",
+     # (one specialisation per generic class: with all_refs two specialisations of one class would share a definition)
+     "T = TypeVar('T')\n@dataclass\nclass Gi(DataClassDictMixin, Generic[T]):\n    f: List[T]\n"
+     "@dataclass\nclass Gj(DataClassDictMixin, Generic[T]):\n    g: Optional[T]\n"
+     "@dataclass\nclass Go(DataClassDictMixin, Generic[T]):\n    x: T\n    inner: Gi[datetime.date]\n    many: List[Gj[str]]\n",
+     "Go[int]", ["Go(1, Gi([datetime.date(2020, 1, 1)]), [Gj('a'), Gj(None)])", "Go(1, Gi([]), [])"]),
+    ("annotated generic field",
+     "T = TypeVar('T')\n@dataclass\nclass Ga(DataClassDictMixin, Generic[T]):\n    f: List[T]\n"
+     "@dataclass\nclass Ha(DataClassDictMixin):\n    x: Annotated[Ga[int], 'n']\n", "Ha", ["Ha(Ga([1]))"]),
     ("same name", "def mk(t):\n    @dataclass\n    class P(DataClassDictMixin):\n        v: t\n    return P\nP1 = mk(int)\nP2 = mk(str)\n"
                   "@dataclass\nclass HP(DataClassDictMixin):\n    a: P1\n    b: P2\n", "HP", ["HP(P1(1), P2('s'))"]),
 ]
@@ -833,9 +883,10 @@ def model_part(ctx: vlib.Ctx):
                                               "C06_sound_full_refuted", "C06_flag_refuted", "C06_intkey_refuted", "C06_shared_defs_refuted",
                                               "C06_set_collision_refuted", "C06_init_false_refuted",
                                               "C06_nt_override_container_refuted", "C06_overridden_nullable_refuted",
-                                              "C06_nt_mode_schema", "C06_nt_mode_pack"], kernels=["K6", "K6N"])
+                                              "C06_nt_mode_schema", "C06_nt_mode_pack",
+                                              "C06_typevar_required_follows_binding"], kernels=["K6", "K6N"])
     r = ctx.rng
-    want = ctx.budget(150, 1000)
+    want = ctx.budget(150, 800)
     a_cases, b_cases, c_cases, a_descr, b_descr, c_descr = [], [], [], [], [], []
     c_src = []
     patterns = set()
@@ -846,6 +897,8 @@ def model_part(ctx: vlib.Ctx):
         tbl, root = G.gen_case(r, r.choice([1, 2, 2, 3, 3]), probe)
         if M.uses_generic(root, tbl):
             ctx.hist("model_cases", "generic-dataclass")
+            if any(d["kind"] == "data" and d["tvars"] and (d.get("cfg") or {}).get("omit_none") for d in tbl.decls):
+                ctx.hist("model_cases", "generic-dataclass-omit_none")
         src = G.module_src(tbl, root)
         if len(src) > 12000:
             ctx.hist("model_skipped", "program-too-large")
@@ -1161,6 +1214,15 @@ def run_fixed(ctx, descr, src, vals):
                          {"entry": "fixed", "source": src, "dialect": dl, "all_refs": ar, "check": "build", "observed": str(e),
                           "expected": "a schema"}, {"kind": "schema-build-crash"})
                 break
+            except Exception as e:
+                sig = build_error_signature(e, None)
+                if descr == "annotated generic field" and isinstance(e, AssertionError):
+                    sig["site"] = "annotated-generic-field"
+                ctx.fail(f"{descr}: build_json_schema raised {type(e).__name__}",
+                         {"entry": "fixed", "source": src, "dialect": dl, "all_refs": ar, "check": "build-error",
+                          "observed": f"{type(e).__name__}: {str(e)[:200]}", "expected": "a schema"}, sig)
+                ctx.count(("fixed", descr, dl, ar))
+                continue
             for node in schema_nodes(s):
                 mn, mx = node.get("minItems"), node.get("maxItems")
                 if mn is not None and mx is not None and mn > mx:
@@ -1176,11 +1238,13 @@ def run_fixed(ctx, descr, src, vals):
                 if errs:
                     e = errs[0]
                     kind = {"flag": "flag", "int keys": "nonstr-key", "same name": "bare-name",
-                            "overridden serialization of a nullable field": "ovr-nullable"}.get(descr)
+                            "overridden serialization of a nullable field": "ovr-nullable",
+                            "nested generic, same type variable": "nested-generic"}.get(descr)
                     ok_kf = (kind == "flag" and e.validator == "enum" and vsrc == "F.A | F.B") or \
                             (kind == "nonstr-key" and "propertyNames" in list(e.absolute_schema_path) and vsrc == "{1: 'a'}") or \
                             (kind == "bare-name" and ar) or \
-                            (kind == "ovr-nullable" and e.validator == "type" and list(e.absolute_path) == ["x"] and vsrc == "Ov(None)")
+                            (kind == "ovr-nullable" and e.validator == "type" and list(e.absolute_path) == ["x"] and vsrc == "Ov(None)") or \
+                            (kind == "nested-generic" and list(e.absolute_path)[:1] in (["inner"], ["many"]))
                     ctx.fail(f"{descr}: {vsrc} rejected: {e.message[:100]}",
                              {"entry": "fixed", "source": src, "dialect": dl, "all_refs": ar, "check": "validate", "value": vsrc,
                               "document": doc, "schema": s, "observed": e.message[:200], "expected": "no validation error"},
@@ -1209,8 +1273,8 @@ def run(ctx: vlib.Ctx):
     ctx.coverage["rule"] = ("random class tables + root types over the supported grammar (scalars, 19 stdlib leaves, 5 enum bases, Literal lists "
                             "with ==-equal members, List/Sequence/Deque/Set/FrozenSet/Tuple var+fixed+Unpack (nested), Dict/Mapping/OrderedDict/"
                             "DefaultDict/Counter/ChainMap, Optional/Union/NewType/Final, dataclasses with three alias sources, defaults/factories, "
-                            "init=False, generic specialisations, same __name__, class options omit_none / namedtuple_as_dict (Config or dialect), "
-                            "field serialize overrides (as_list/as_dict, function with return annotation, pass_through), NamedTuple, TypedDict "
+                            "init=False, generic specialisations (plain / Optional / None / Any / container arguments, with omit_none), same __name__, class options omit_none / namedtuple_as_dict (Config or dialect), "
+                            "field serialize overrides (as_list/as_dict; function / field-level strategy dict or object with scalar, container or missing return annotation; pass_through), NamedTuple, TypedDict "
                             "total/Required/NotRequired), several conforming values each, validated under 2 dialects x all_refs; distinct = distinct "
                             "(root type, table size); 30% of the cases probe the known-finding inputs")
     ctx.assumptions += [
@@ -1228,7 +1292,7 @@ def run(ctx: vlib.Ctx):
     fixed_part(ctx)
     if not ctx.quick():
         coqchk_part(ctx)
-    n = oracle(ctx, ctx.budget(250, 2000), 4)
+    n = oracle(ctx, ctx.budget(250, 1600), 4)
     ctx.notes.append(f"oracle validations: {n}")
 
 
@@ -1249,6 +1313,16 @@ def replay(rep: dict) -> int:
                 print("error:", e.validator, list(e.absolute_path), e.message[:200])
             print("REPRODUCED" if errs else "not reproduced")
             return 1 if errs else 0
+        if chk == "build-error":
+            try:
+                build_schema(m.ROOT, rep["dialect"], rep["all_refs"])
+            except Exception as e:
+                print("build_json_schema:", type(e).__name__, str(e)[:300])
+                bad = rep.get("observed", "").startswith(type(e).__name__)
+                print("REPRODUCED" if bad else "not reproduced (a different error)")
+                return 1 if bad else 0
+            print("not reproduced")
+            return 0
         if chk == "build":
             try:
                 build_schema(m.ROOT, rep["dialect"], rep["all_refs"])
@@ -1272,7 +1346,7 @@ def replay(rep: dict) -> int:
             print("REPRODUCED" if bad else "not reproduced")
             return 1 if bad else 0
         if chk == "required":
-            ds = build_schema(m.__dict__[rep["class"]], "DRAFT_2020_12", False)
+            ds = build_schema(eval(rep["class"], m.__dict__), "DRAFT_2020_12", False)
             got = {"required": ds.get("required", []), "properties": list(ds.get("properties", {}))}
             print("observed", got, "expected", rep["expected"])
             bad = got != rep["expected"]
